@@ -39,28 +39,35 @@ Proof.
   rewrite (fits_trunc wa (Z.lor a b)); auto using lor_fits. apply trunc_lnot_sub; lia.
 Qed.
 
-(* Xor2 from four NANDs; exact as soon as the result is no wider than a (whose width the internal wires take) *)
-Lemma Xor2_char wa wb wr a b : 0 <= wr <= wa -> 0 <= wb -> fits wa a -> fits wb b ->
-  Xor2_m wa wb wr a b = trunc wr (Z.lxor a b).
+(* Xor2 from four NANDs whose internal wires are wm = mid wa wb wr bits wide: exact as soon as the result is no wider than
+   the internal wires.  (mid_a: wr <= wa, the unrepaired tree; mid_max: always.) *)
+Lemma Xor2_char mid wa wb wr a b : 0 <= wa -> 0 <= wb -> 0 <= wr <= mid wa wb wr -> fits wa a -> fits wb b ->
+  Xor2_m mid wa wb wr a b = trunc wr (Z.lxor a b).
 Proof.
-  intros Hw Hwb Ha Hb. unfold Xor2_m, Nand2_m. cbv zeta. rewrite !Not_char, !And2_char.
+  intros Hwa Hwb Hw Ha Hb. unfold Xor2_m, Nand2_m. cbv zeta. set (wm := mid wa wb wr) in *. rewrite !Not_char, !And2_char.
   rewrite <- (fits_trunc wa a) by (auto; lia). rewrite <- (fits_trunc wb b) by (auto; lia).
   generalize a b; clear a b Ha Hb; intros a b.
   bitwise.
 Qed.
-Lemma Xor2_correct wa wb wr a b : 0 <= wr <= wa -> 0 <= wb -> fits wa a -> fits wb b ->
-  Xor2_m wa wb wr a b = xor2_spec wr a b.
+Lemma Xor2_correct mid wa wb wr a b : 0 <= wa -> 0 <= wb -> 0 <= wr <= mid wa wb wr -> fits wa a -> fits wb b ->
+  Xor2_m mid wa wb wr a b = xor2_spec wr a b.
 Proof. intros. rewrite Xor2_char by auto. apply trunc_mod; lia. Qed.
 
-(* what Xor2 computes in general: the bits of the result at and above a's width are all ones *)
-Lemma Xor2_general wa wb wr a b : 0 <= wa -> 0 <= wb -> 0 <= wr -> fits wa a -> fits wb b ->
-  Xor2_m wa wb wr a b = trunc wr (Z.lnot (trunc wa (Z.lnot (Z.lxor a b)))).
+(* what Xor2 computes in general: the bits of the result at and above the internal width are all ones *)
+Lemma Xor2_general mid wa wb wr a b : 0 <= wa -> 0 <= wb -> 0 <= wr -> 0 <= mid wa wb wr -> fits wa a -> fits wb b ->
+  Xor2_m mid wa wb wr a b = trunc wr (Z.lnot (trunc (mid wa wb wr) (Z.lnot (Z.lxor a b)))).
 Proof.
-  intros Hwa Hwb Hwr Ha Hb. unfold Xor2_m, Nand2_m. cbv zeta. rewrite !Not_char, !And2_char.
+  intros Hwa Hwb Hwr Hwm Ha Hb. unfold Xor2_m, Nand2_m. cbv zeta. set (wm := mid wa wb wr) in *. rewrite !Not_char, !And2_char.
   rewrite <- (fits_trunc wa a) by (auto; lia). rewrite <- (fits_trunc wb b) by (auto; lia).
   generalize a b; clear a b Ha Hb; intros a b.
   bitwise.
 Qed.
+
+(* the two formulas: the guard of Xor2_char under each *)
+Lemma mid_a_guard wa wb wr : wr <= wa -> wr <= mid_a wa wb wr.
+Proof. unfold mid_a; lia. Qed.
+Lemma mid_max_guard wa wb wr : wr <= mid_max wa wb wr.
+Proof. unfold mid_max; lia. Qed.
 
 (* ------------------------------------------------------------------ ladders *)
 Section Ladder.
@@ -137,23 +144,23 @@ Proof.
   rewrite (fits_trunc w0) by auto using lor_all_fits. apply trunc_lnot_sub; lia.
 Qed.
 
-(* Xor ladder: inputs of width wi, result (and intermediate wires) of width w <= wi *)
-Lemma xor_ladder wi w rest acc : 0 <= w -> 0 <= wi -> Forall (fits wi) rest ->
-  fold_left (fun acc x => Xor2_m w wi w acc x) rest (trunc w acc) = trunc w (fold_left Z.lxor rest acc).
+(* Xor ladder: inputs of width wi, result (and intermediate wires) of width w; the first Xor2 is (wi, wi, w), the others (w, wi, w) *)
+Lemma xor_ladder mid wi w rest acc : 0 <= w -> 0 <= wi -> w <= mid w wi w -> Forall (fits wi) rest ->
+  fold_left (fun acc x => Xor2_m mid w wi w acc x) rest (trunc w acc) = trunc w (fold_left Z.lxor rest acc).
 Proof.
-  intros Hw Hwi Hf. revert acc. induction Hf as [|x rest Hx Hrest IH]; intros acc; cbn [fold_left]; [reflexivity|].
+  intros Hw Hwi Hm Hf. revert acc. induction Hf as [|x rest Hx Hrest IH]; intros acc; cbn [fold_left]; [reflexivity|].
   rewrite Xor2_char by (auto using trunc_fits; lia). rewrite trunc_lxor_l by lia. apply IH.
 Qed.
-Lemma Xor_char wi w ins : 0 <= w <= wi -> (2 <= length ins)%nat -> Forall (fits wi) ins ->
-  Xor_m wi w ins = trunc w (lxor_all ins).
+Lemma Xor_char mid wi w ins : 0 <= w -> 0 <= wi -> w <= mid wi wi w -> w <= mid w wi w -> (2 <= length ins)%nat ->
+  Forall (fits wi) ins -> Xor_m mid wi w ins = trunc w (lxor_all ins).
 Proof.
-  intros Hw Hlen Hf. destruct ins as [|a [|b rest]]; cbn [length] in Hlen; try lia.
+  intros Hw Hwi Hm1 Hm2 Hlen Hf. destruct ins as [|a [|b rest]]; cbn [length] in Hlen; try lia.
   inversion Hf as [|? ? Ha Hf1]; subst. inversion Hf1 as [|? ? Hb Hrest]; subst.
   rewrite <- fold_lxor_all. unfold Xor_m. cbn [fold_left].
   rewrite Xor2_char by (auto; lia). apply xor_ladder; auto; lia.
 Qed.
-Lemma Xor_correct wi w ins : 0 <= w <= wi -> (2 <= length ins)%nat -> Forall (fits wi) ins ->
-  Xor_m wi w ins = xor_spec w ins.
+Lemma Xor_correct mid wi w ins : 0 <= w -> 0 <= wi -> w <= mid wi wi w -> w <= mid w wi w -> (2 <= length ins)%nat ->
+  Forall (fits wi) ins -> Xor_m mid wi w ins = xor_spec w ins.
 Proof. intros. rewrite Xor_char by auto. apply trunc_mod; lia. Qed.
 
 (* ------------------------------------------------------------------ bit split, bit, range, repeat, enable *)
